@@ -405,7 +405,9 @@ static void c02_prior_case(int fmt, int fld, int path, int g, uint64_t u, uint64
 {
     const RowFmt* F = &g_fmts[fmt];
     Obj o; c02_prior_obj(&o, fmt);
-    ref_set(obj_hdr(&o), (unsigned)F->f[g].off, (unsigned)F->f[g].w, u & mask_w((unsigned)F->f[g].w));
+    int selfones = g / 1000;      /* g >= 1000: the field under test holds all-ones before the write */
+    if (selfones) ref_set(obj_hdr(&o), (unsigned)F->f[fld].off, (unsigned)F->f[fld].w, mask_w((unsigned)F->f[fld].w));
+    ref_set(obj_hdr(&o), (unsigned)F->f[g % 1000].off, (unsigned)F->f[g % 1000].w, u & mask_w((unsigned)F->f[g % 1000].w));
     char cs[160];
     SETCS("C02", 3, (long long)(fmt), (long long)(fld), (long long)(path), (long long)(g), (long long)(u), (long long)((unsigned long long)v));
     c02_run(cs, fmt, fld, path, &o, v);
@@ -438,6 +440,10 @@ static void suite_c02_priors(void)
                 uint64_t ulim = (G->w <= (g_thorough ? 8 : 3)) ? gm : 8;
                 c.g1 = g; c.g2 = -1;
                 for (uint64_t u = 0; u <= ulim && u <= gm; u++) { c.u = u; if (g_lite) { sv_small_fn((unsigned)R->w, c02_pval, &c); } else pv_enum((unsigned)R->w, c02_pval, &c); }
+                /* the same with the field itself at all-ones before the write (a 1 -> 0 transition that triggers something) */
+                c.g1 = g + 1000;
+                for (uint64_t u = 0; u <= ulim && u <= gm; u++) { c.u = u; sv_small_fn((unsigned)R->w, c02_pval, &c); }
+                c.g1 = g;
                 if (gm > ulim) {
                     c.u = gm; pv_enum((unsigned)R->w, c02_pval, &c);
                     if (!g_lite) for (unsigned i = 4; i < (unsigned)G->w; i++) { c.u = 1ull << i; pv_enum((unsigned)R->w, c02_pval, &c); }
@@ -585,7 +591,7 @@ int main(int argc, char** argv)
         char buf[256]; strncpy(buf, cs, sizeof buf - 1); buf[sizeof buf - 1] = 0;
         char* tok = strtok(buf, ":"); strncpy(suite, tok, 7); suite[7] = 0;
         tok = strtok(NULL, ":"); sub = atoi(tok);
-        for (int k = 0; k < 8 && (tok = strtok(NULL, ":")); k++) p[k] = (k >= 5 && strcmp(suite, "C05")) ? (long long)strtoull(tok, NULL, 16) : atoll(tok);
+        for (int k = 0; k < 8 && (tok = strtok(NULL, ":")); k++) p[k] = (k >= 5 && (strcmp(suite, "C05") || sub == 4)) ? (long long)strtoull(tok, NULL, 16) : atoll(tok);
         if (!strcmp(suite, "C01")) replay_c01(sub, p);
         else if (!strcmp(suite, "C02")) replay_c02(sub, p);
         else replay_other(suite, sub, p);
